@@ -371,6 +371,12 @@ func (c *chainRun) apply(i int, op Op) {
 			c.pivoted[op.Node] = false // the node is back in its fast-sync stage: no InsertChain until a pivot is committed again
 			break
 		}
+		if os.Getenv("VERIF_DEBUG") != "" && before >= 0 {
+			bb := u.Blocks[before]
+			hh := core.GetHeadBlockHash(n.Disk)
+			_, onDisk := n.Disk.Get(bb.Root().Bytes())
+			fmt.Fprintf(os.Stderr, "DEBUG restart: head before id %d root %x; disk LastBlock id %d; root on disk err=%v; HasState=%v\n", before, bb.Root().Bytes()[:4], u.ByHash[hh], onDisk, n.BC.HasState(bb.Root()))
+		}
 		if after := n.HeadID(); after != before {
 			c.add("head-changed-across-clean-restart", i, "node %d head id %d before Stop, id %d after reopening", op.Node, before, after)
 			return
